@@ -45,10 +45,15 @@ pub fn oracle_idle(base: u32) {
 }
 
 fn build(n: usize, slots: usize) {
+    build_from(n, slots, 0)
+}
+
+/// Nodes below `first` get no outgoing edges (keeps the number of shapes small for the larger graphs).
+fn build_from(n: usize, slots: usize, first: usize) {
     for i in 0..n {
         new_node(i);
     }
-    for i in 0..n {
+    for i in first..n {
         for s in 0..slots {
             let t = any_below(n as u8 + 1) as usize;
             if t < n {
@@ -78,7 +83,15 @@ fn continuation(n: usize, slots: usize, base: u32) {
 }
 
 fn panic_scenario(n: usize, slots: usize, sym_hist: bool, kmax: u8, two_faults: bool) {
-    build(n, slots);
+    panic_scenario_k(n, slots, sym_hist, kmax, two_faults, 3)
+}
+
+fn panic_scenario_k(n: usize, slots: usize, sym_hist: bool, kmax: u8, two_faults: bool, kinds: u8) {
+    panic_scenario_f(n, slots, sym_hist, kmax, two_faults, kinds, 0)
+}
+
+fn panic_scenario_f(n: usize, slots: usize, sym_hist: bool, kmax: u8, two_faults: bool, kinds: u8, first: usize) {
+    build_from(n, slots, first);
     for i in 0..n {
         if !sym_hist || any_below(2) == 1 {
             clone_h(i);
@@ -87,7 +100,7 @@ fn panic_scenario(n: usize, slots: usize, sym_hist: bool, kmax: u8, two_faults: 
     }
     oracle_safety(100);
     // fault plan: kind is a control choice, the crash index is a solver variable compared against the running counter
-    let kind = 1 + any_below(3);
+    let kind = 1 + any_below(kinds);
     let k = any_u8();
     assume(k >= 1 && k <= kmax);
     arm(kind, k as u32);
@@ -102,8 +115,10 @@ fn panic_scenario(n: usize, slots: usize, sym_hist: bool, kmax: u8, two_faults: 
     }
     // collector path
     let fired_before = w().fault_fired;
+    let e0 = state::executions_count().unwrap_or(0);
     let p = guarded(|| collect_cycles());
     check(p == (w().fault_fired > fired_before), 391); // the panic reaches the caller, nothing else does
+    check(state::executions_count().unwrap_or(0) == e0 + 1, 393); // C11: a collection that was started counts, even if it unwinds
     panicked |= p;
     disarm();
     check(panicked == (w().fault_fired > 0), 392);
@@ -113,6 +128,7 @@ fn panic_scenario(n: usize, slots: usize, sym_hist: bool, kmax: u8, two_faults: 
     oracle_idle(300);
     oracle_safety(300);
     oracle_rc(300);
+    crate::h_api::oracle_buffer(300); // C11: list/size consistency holds for all programs, also after an unwound collection
     if two_faults {
         let kind2 = 1 + any_below(3);
         let k2 = any_u8();
@@ -147,6 +163,18 @@ pub fn h_panic_n3_hist() {
 #[no_mangle]
 pub fn h_panic_n2_two() {
     panic_scenario(2, 1, true, 6, true);
+}
+
+/// Four objects, Trace panics only: several objects are still buffered behind the one whose trace panics.
+#[no_mangle]
+pub fn h_panic_n4_trace() {
+    panic_scenario_k(4, 1, false, 6, false, 1);
+}
+
+/// The same with edges only out of the two objects buffered last (traced first): small enough for the quick tier.
+#[no_mangle]
+pub fn h_panic_n4_q() {
+    panic_scenario_f(4, 1, false, 4, false, 1, 2);
 }
 
 #[no_mangle]
